@@ -19,7 +19,8 @@ RULE = ("full product personality x request route path x service on a freshly co
         "null/0/false over port and link alphabets. non-trivial = distinct (personality, route path, service) with a route path "
         "present, and distinct route-path texts with >= 1 segment")
 BOUNDS = {
-    "quick": "13 personalities (3 of them with a non-applicable route table) x 18 request route paths x 5 services, each request twice; texts over ports {1,2,14,15,16,255,65535} x links "
+    "quick": "13 personalities (3 of them with a non-applicable route table) x 18 request route paths x 5 services, each request twice; every ordered "
+             "pair of personalities as two simulators built one after the other in one process x 4 route paths x {read, write}; texts over ports {1,2,14,15,16,255,65535} x links "
              "{0,1,255,'1.2.3.4','10.0.0.10'} in 4 notations, chains of 1..2 segments",
     "thorough": "same product (it is already complete for the alphabet) + chains of 3 segments and connection paths with a trailing CIP path",
 }
@@ -86,9 +87,13 @@ def build(pname, personality, how):
             args = ["--route-path=" + json.dumps(personality)]
         S = sim.Sim(CFG, via_main=True, main_args=args, attribute_class=Counting)
     else:
-        class U(M.ucmm.UCMM):
-            route_path = personality
-            route = dict(ROUTE_TABLE) if pname.endswith("+table") else {}
+        if personality is None:
+            # no personality configured: the library's own UCMM class, nothing said about route_path at all
+            U = None
+        else:
+            class U(M.ucmm.UCMM):
+                route_path = personality
+                route = dict(ROUTE_TABLE) if pname.endswith("+table") else {}
         S = sim.Sim(CFG, ucmm_class=U, attribute_class=Counting)
     for a in S.attrs.values():
         assert isinstance(a, Counting), "harness: attribute_class not honoured"
@@ -236,7 +241,32 @@ def check_text(text, want):
     return []
 
 
+PAIR_PATHS = [None, [PL(1, 0)], [PL(1, 1)], [PL(16, 3), PL(1, 0)]]
+
+
 def shard(acc, item, tier, seed):
+    if item[0] == "pairs":
+        # two simulators one after the other in ONE process (as a test suite or an embedding application builds them): the second
+        # one's personality is its own configuration, whatever the first one was configured with
+        _, first = item
+        p1 = dict(PERSONALITIES)[first]
+        for second, p2 in PERSONALITIES:
+            S1, _c = build(first, p1, "class")
+            s1 = S1.register()
+            try:
+                S1.frame(R.send_rr_data(s1, request_bytes("read"), route_path=[PL(2, 0)]))
+            except Exception:
+                pass
+            for rp in PAIR_PATHS:
+                for service in ("read", "write"):
+                    acc.ev()
+                    acc.ntc()
+                    bad, accepted = check_case(second, p2, "class", rp, service)
+                    acc.outcome("pair:%s" % ("accept" if accepted else "refuse"))
+                    for k, m in bad:
+                        acc.violation("after-another-simulator:" + k, {"op": "pair", "first": first, "pname": second, "rp": rp, "service": service},
+                                      "after a simulator with personality %s in the same process: %s" % (first, m))
+        return
     if item[0] == "cases":
         _, pname, how = item
         personality = dict(PERSONALITIES)[pname]
@@ -269,6 +299,8 @@ def run(ctx):
         items.append(("cases", pname, "class"))
         if "+table" not in pname and (personality is None or personality is False or (personality and len(personality) == 1)):
             items.append(("cases", pname, "main"))
+    for pname, _p in PERSONALITIES:
+        items.append(("pairs", pname))
     for k in range(8):
         items.append(("texts", k, 8))
     return ctx.pmap(__name__, "shard", items)
@@ -283,6 +315,15 @@ def guards(acc, ctx):
 
 
 def replay(case):
+    if case["op"] == "pair":
+        p1 = dict(PERSONALITIES)[case["first"]]
+        S1, _c = build(case["first"], p1, "class")
+        try:
+            S1.frame(R.send_rr_data(S1.register(), request_bytes("read"), route_path=[PL(2, 0)]))
+        except Exception:
+            pass
+        bad, _ = check_case(case["pname"], dict(PERSONALITIES)[case["pname"]], "class", case["rp"], case["service"])
+        return [m for k, m in bad]
     if case["op"] == "case":
         bad, _ = check_case(case["pname"], dict(PERSONALITIES)[case["pname"]], case["how"], case["rp"], case["service"])
     else:
